@@ -10,11 +10,12 @@ volume; the REAL recording path runs on integer fields
                  widths in {1,2,3} where a step would leave the dyadic numbers; PML scenes)
 and TLC evaluates the definitional co-location formula on the logged arrays and compares it with what the detectors stored."""
 import itertools
+import os
 import random
 
 ID = "C15"
 TRACE = ("Trace_Colocate", "Trace_Colocate.cfg")
-CHUNK = 2
+CHUNK = 3
 PARALLEL = 4
 
 FACES = ("min_x", "max_x", "min_y", "max_y", "min_z", "max_z")
@@ -24,6 +25,9 @@ T = 2
 
 
 def model_check(ctx):
+    if os.environ.get("C15_SKIP_MC"):  # mutation self-tests only exercise the conformance stage
+        ctx.notes.append("model checking skipped (C15_SKIP_MC)")
+        return
     if ctx.quick:
         ctx.mc("Colocate", "MC_Colocate_q.cfg",
                label="4x3x3 lattice: all 360 boxes x exact on/off, 6 halo configurations (zero, wrap, electric/magnetic planes, far side periodic), uniform + stretched widths, 1 generic integer field")
@@ -84,10 +88,13 @@ SCENES = {
     "symEx": ((4, 3, 3), (-1, 0, 0), {}, None, "step"),                      # electric plane x, far side periodic
     "symEyMz": ((3, 4, 3), (0, -1, 1), {"max_y": "pec"}, None, "step"),       # electric y (far side PEC), magnetic z (far side periodic)
     "symExyz": ((3, 3, 3), (-1, -1, -1), {"max_x": "pmc", "max_z": "pec"}, None, "step"),
-    "symMx": ((4, 3, 3), (1, 0, 0), {"max_x": "pec"}, None, "step"),
+    "symMx": ((4, 3, 3), (1, 0, 0), {}, None, "step"),                      # magnetic plane x, far side periodic: min halo must NOT wrap
     "symRect": ((4, 3, 3), (-1, 1, 0), {}, [[1, 2, 3, 1], [3, 1, 2], [3, 1, 2]], "direct"),
     "symRect2": ((3, 4, 3), (-1, -1, 0), {"max_x": "pec"}, [[2, 1, 3], [1, 3, 2, 2], [1, 1, 3]], "direct"),
 }
+
+
+QUICK_SKIP = ("pmcpec", "rect2", "symRect2")  # thorough tier only
 
 
 def _case(cid, scene, dets, seed):
@@ -96,14 +103,28 @@ def _case(cid, scene, dets, seed):
             "dets": dets, "seed": seed}
 
 
-def _dets(boxes, rng, p_raw=0.0, p_late=0.15):
+def _dets(boxes, rng, N, p_raw=0.0, p_late=0.15):
+    """interior boxes (the fast path) are always exact and always on; raw twins are added for a share of the boxes"""
     out = []
     for b in boxes:
-        out.append({"box": b, "exact": not (rng.random() < p_raw), "on": [True, True] if rng.random() >= p_late else [False, True]})
+        interior = all(s >= 1 and e <= n - 1 for (s, e), n in zip(b, N))
+        late = (not interior) and rng.random() < p_late
+        out.append({"box": b, "exact": True, "on": [False, True] if late else [True, True]})
+        if rng.random() < p_raw:
+            out.append({"box": b, "exact": False, "on": [True, True] if rng.random() >= p_late else [False, True]})
     return out
 
 
 def gen_cases(ctx):
+    only = [x for x in os.environ.get("C15_ONLY", "").split(",") if x]  # self-test convenience: keep the cases whose id contains one of these
+    for c in _gen_cases(ctx):
+        if not only or any(x in c["id"] for x in only):
+            yield c
+    if only:
+        ctx.exhaustive = False
+
+
+def _gen_cases(ctx):
     rng = random.Random(ctx.seed)
     k = 0
     per_case = 60
@@ -115,9 +136,11 @@ def gen_cases(ctx):
     rng.shuffle(boxes)
     for i in range(0, len(boxes), per_case):
         k += 1
-        yield _case(f"c{k}-per-all{i // per_case}", "per", _dets(boxes[i:i + per_case], rng), rng.randrange(1 << 30))
+        yield _case(f"c{k}-per-all{i // per_case}", "per", _dets(boxes[i:i + per_case], rng, N), rng.randrange(1 << 30))
     # B. every scene kind: one box per contact-class combination (quick) / every box (thorough), exact and raw mixed
     for scene in SCENES:
+        if ctx.quick and scene in QUICK_SKIP:
+            continue
         N = SCENES[scene][0]
         if ctx.quick:
             bl = _class_boxes(N, rng)
@@ -127,7 +150,7 @@ def gen_cases(ctx):
         for i in range(0, len(bl), 64 if ctx.quick else per_case):
             k += 1
             part = bl[i:i + (64 if ctx.quick else per_case)]
-            yield _case(f"c{k}-{scene}-{i}", scene, _dets(part, rng, p_raw=0.2), rng.randrange(1 << 30))
+            yield _case(f"c{k}-{scene}-{i}", scene, _dets(part, rng, N, p_raw=0.2), rng.randrange(1 << 30))
     # C. thorough: seeded random boundary / symmetry / width combinations
     if not ctx.quick:
         for r in range(24):
@@ -150,7 +173,7 @@ def gen_cases(ctx):
             has_pml = any(v == "pml" for v in bounds.values())
             mode = "direct" if (rect or has_pml) else "step"
             c = {"id": f"c{k}-rand{r}", "scene": "rand", "N": list(N), "sym": sym, "bounds": bounds, "widths": widths, "mode": mode,
-                 "dets": _dets(_class_boxes(N, rng), rng, p_raw=0.2), "seed": rng.randrange(1 << 30)}
+                 "dets": _dets(_class_boxes(N, rng), rng, N, p_raw=0.2), "seed": rng.randrange(1 << 30)}
             yield c
 
 
